@@ -1553,6 +1553,31 @@ v("C09", "benign-link-band-inlined", "benign", LINKOBS,
   """            utilisation_category = 1 + int(9 * load / bandwidth)
 """, None, "same arithmetic without the intermediate local")
 
+v("C07", "empty-list-fast-path-always-permits", "break", ROUTER,
+  """        permitted = False
+        rule: ACLRule = None
+
+        for _rule in self._acl:""",
+  """        if not self.num_rules:
+            self.implicit_rule.match_count += 1
+            return True, self.implicit_rule
+        permitted = False
+        rule: ACLRule = None
+
+        for _rule in self._acl:""", "R7.1", "an empty default-deny list lets everything through")
+v("C07", "benign-empty-list-fast-path", "benign", ROUTER,
+  """        permitted = False
+        rule: ACLRule = None
+
+        for _rule in self._acl:""",
+  """        if not self.num_rules:
+            self.implicit_rule.match_count += 1
+            return self.implicit_action == ACLAction.PERMIT, self.implicit_rule
+        permitted = False
+        rule: ACLRule = None
+
+        for _rule in self._acl:""", None, "the fast path gives the implicit action's verdict and counts the implicit rule")
+
 # ------------------------------------------------------------------------------------------------ C02 / C09
 # the variants written together with the observation engine live next to the rules (sa/rules/c02.py, c09.py: VARIANTS)
 import sys
